@@ -363,6 +363,18 @@ def main(argv):
     if argv[0] == "replay":
         import replay as replay_mod
         return replay_mod.replay_cmd(argv[1])
+    if argv[0] == "list":
+        import verus_engine
+        try:
+            census = json.load(open(os.path.join(VERIF, "contracts", "expected_units.json")))
+        except Exception:
+            census = {}
+        for pid in CLAIMED:
+            ku = sorted(n for n, props in census.items() if pid in props)
+            vu = sorted(u for u, d in verus_engine.UNITS.items() if pid in d["props"])
+            print(f"{pid}: {len(ku)} Kani units (pinned census; e.g. {', '.join(ku[:3])}{' ...' if len(ku) > 3 else ''}); Verus units: {', '.join(vu) or '-'}")
+        print("not applicable:", ", ".join(x["property_id"] for x in json.load(open(os.path.join(VERIF, "MANIFEST.json")))["not_applicable"]))
+        return 0
     if argv[0] == "clean":
         shutil.rmtree(os.path.join(VERIF, ".cache"), ignore_errors=True)
         shutil.rmtree(scratch.SCRATCH_ROOT, ignore_errors=True)
